@@ -24,6 +24,10 @@ pub mod c22;
 pub mod c23;
 pub mod c25;
 pub mod c27;
+pub mod c18;
+pub mod c20;
+pub mod c24;
+pub mod c26;
 pub mod c28;
 pub mod driver_common;
 pub mod suite;
@@ -45,11 +49,15 @@ pub const REGISTRY: &[(&str, RunFn)] = &[
     ("C15", c15::run),
     ("C16", c16::run),
     ("C17", c17::run),
+    ("C18", c18::run),
     ("C19", c19::run),
+    ("C20", c20::run),
     ("C21", c21::run),
     ("C22", c22::run),
     ("C23", c23::run),
+    ("C24", c24::run),
     ("C25", c25::run),
+    ("C26", c26::run),
     ("C27", c27::run),
     ("C28", c28::run),
 ];
@@ -59,6 +67,10 @@ pub const REGISTRY: &[(&str, RunFn)] = &[
 pub fn hidden_subcommand(name: &str, args: &[String]) -> Option<i32> {
     match name {
         "__api" => Some(driver_common::api_main(args)),
+        // lv __gtdump <seed> <n> <dir>: write n template grammars (debugging aid for grammar_text)
+        "__gtdump" => Some(crate::grammar_text::dump_main(args)),
+        // lv __procdir <dir> <outdir> [--comments] [--report]: Configuration::process_dir in a fresh process (C20)
+        "__procdir" => Some(c20::procdir_main(args)),
         _ => None,
     }
 }
